@@ -1,8 +1,10 @@
 /-
   Line handler for C03.
     c03 nil <rule ptrTy|nilable> <admitsNil 0/1> <ownNilPath 0/1> <op>*     → "<model outcome>\t<spec verdict on the implementation's outcome>"
-    c03 val …                                              → "same\tsame"   (a non-nil input must be validated as by the base schema;
-                                                                               the harness compares with the base schema itself)
+    c03 val <kind plain|record|structp> <ok|bad> <dep 0/1> <ownNilPath 0/1> <op>*   → "same" | "diff:verdict"  (a non-nil input must be validated as by the base schema;
+                                                               the harness compares with the base schema itself; dep = the input's verdict depends on
+                                                               the type's own configuration; model = `ctxStepX` under the configuration the history leaves)
+    c03 cfg <kind> <op>*                                     → "carried" | "dropped": the type's own configuration fields after the history (by reflection)
     c03 wnil <rule> <admitsNil> <ownNilPath> <stack> <op>*   → the same under a chain of wrappers; <stack> is a word over T (`.Transform(fᵢ)`)
                                                                and P (`.Pipe(targetᵢ)`), innermost first, i = position; observation =
                                                                "<result> log=<callback log>", e.g. "ok:f2(f1(prefault:value)) log=f1(prefault:value);f2(f1(prefault:value))"
@@ -196,6 +198,17 @@ def handleSib (kind init : String) (segs : List String) (impl : Option String) :
     let cm := if run.1 == c0 then "same" else "changed"
     " / ".intercalate ms ++ " ctx=" ++ cm ++ "\t" ++ (if impl.isSome then " / ".intercalate ss ++ " ctx=same" else "-")
 
+def parseKind : String → Kind
+  | "record" => .record
+  | "structp" => .structp
+  | _ => .plain
+
+/-- The value parser as the `val` lines abstract it: an input is (accepted by the schema as constructed, verdict
+    depends on the type's own configuration); with the configuration gone a dependent input's verdict flips. -/
+def depValidate (cfg : Bool) (x : Bool × Bool) : Option Unit :=
+  let verdict := if x.2 && !cfg then !x.1 else x.1
+  if verdict then some () else none
+
 def handleLine (line : String) : String :=
   let (lhs, impl) := match line.splitOn " @ " with
     | [a, b] => (a, some b)
@@ -203,7 +216,25 @@ def handleLine (line : String) : String :=
   match (lhs.splitOn " ").filter (· ≠ "") with
   | "c03" :: "cseq" :: init :: _ => handleSeq init ((lhs.splitOn " / ").drop 1) impl
   | "c03" :: "csib" :: kind :: init :: _ => handleSib kind init ((lhs.splitOn " / ").drop 1) impl
-  | "c03" :: "val" :: _ => "same\tsame"
+  | "c03" :: "cfg" :: kind :: ops =>
+    -- the type's own configuration after the history: carried, or left at its zero value by a dropping method
+    match ops.mapM parseOp with
+    | none => "bad-op"
+    | some h =>
+      let s := applyAllC (parseKind kind) .nilableFlag false (⟨true, false, {}⟩ : SchC Bool) h
+      (if s.cfg then "carried" else "dropped") ++ "\tcarried"
+  | "c03" :: "val" :: kind :: okbad :: dep :: own :: ops =>
+    -- a non-nil input: the value parser under the configuration the history leaves (`ctxStepX`); an input whose verdict
+    -- depends on the configuration (dep = 1) flips when the configuration is gone
+    match ops.mapM parseOp with
+    | none => "bad-op"
+    | some h =>
+      let s0 : SchC Bool := ⟨true, false, {}⟩
+      let x : Bool × Bool := (okbad == "ok", dep == "1")
+      let a := (ctxStepX depValidate {} (applyAllC (parseKind kind) .nilableFlag false s0 h) (some x)).2
+      let b := (ctxStepX depValidate {} s0 (some x)).2
+      -- own = 1: Record's pointer variants (known finding: every Parse fails in a type-local conversion) echo
+      (if own == "1" then impl.getD "-" else if a == b then "same" else "diff:verdict") ++ "\tsame"
   | "c03" :: "wval" :: stack :: okbad :: ops =>
     match parseStack stack, ops.mapM parseOp with
     | some ws, some h =>
